@@ -266,3 +266,62 @@ def elementwise_loop_rule(ex, st, env, rng):
     env[st.target.id] = i
     ex.loop_indices = getattr(ex, "loop_indices", []) + [i]
     ex.exec_block(st.body, env)
+
+
+def loop_carried(loop):
+    """names whose value at the start of an iteration of `loop` may come from an earlier iteration: assigned (or element-/attribute-assigned) somewhere
+    in the body and possibly read before an unconditional assignment in the body.  Syntactic and conservative (arrays are weak updates)."""
+    assigned, elem = set(), set()
+    for st in loop.body:
+        for n in _ast.walk(st):
+            if isinstance(n, _ast.Name) and isinstance(n.ctx, _ast.Store):
+                assigned.add(n.id)
+            if isinstance(n, (_ast.Subscript, _ast.Attribute)) and isinstance(n.ctx, _ast.Store):
+                b_ = n
+                while isinstance(b_, (_ast.Subscript, _ast.Attribute)):
+                    b_ = b_.value
+                if isinstance(b_, _ast.Name):
+                    elem.add(b_.id)
+    defin = {x.id for x in _ast.walk(loop.target) if isinstance(x, _ast.Name)}
+    read_first = set()
+
+    def expr(e, d):
+        for n in _ast.walk(e):
+            if isinstance(n, _ast.Name) and isinstance(n.ctx, _ast.Load) and n.id not in d and (n.id in assigned or n.id in elem):
+                read_first.add(n.id)
+
+    def block(stmts, d):
+        for st in stmts:
+            if isinstance(st, _ast.Assign):
+                expr(st.value, d)
+                for t in st.targets:
+                    if isinstance(t, _ast.Name):
+                        d.add(t.id)
+                    else:
+                        expr(t, d)
+            elif isinstance(st, _ast.AugAssign):
+                expr(st.value, d)
+                expr(_ast.Name(id=st.target.id, ctx=_ast.Load()) if isinstance(st.target, _ast.Name) else st.target, d)
+            elif isinstance(st, _ast.If):
+                expr(st.test, d)
+                d1, d2 = set(d), set(d)
+                block(st.body, d1)
+                block(st.orelse, d2)
+                d |= (d1 & d2)
+            elif isinstance(st, _ast.For):
+                expr(st.iter, d)
+                block(st.body, set(d) | {x.id for x in _ast.walk(st.target) if isinstance(x, _ast.Name)})
+            elif isinstance(st, _ast.While):
+                expr(st.test, d)
+                block(st.body, set(d))
+            elif isinstance(st, _ast.Try):
+                block(st.body, set(d))
+                for h in st.handlers:
+                    block(h.body, set(d))
+                block(st.finalbody, d)
+            elif isinstance(st, _ast.Delete):
+                pass
+            else:
+                expr(st, d)
+    block(loop.body, defin)
+    return read_first
